@@ -665,6 +665,34 @@ Proof.
   apply orb_true_iff in H as [H|H]; [apply orb_true_iff in H as [H|H]|]; apply sty_eqb_eq in H; auto.
 Qed.
 
+(* the value node the parser fabricates for a typed declaration  x:[]num  /  x:{}num  and for
+   x := []  (declared with the defaulted type): an empty literal carrying the declared type *)
+Definition zero_lit (t : ty) (e : expr) : bool :=
+  match e, t with
+  | EArr t' [], TArr _ => ty_eqb t t'
+  | EMap t' [], TMap _ => ty_eqb t t'
+  | _, _ => false
+  end.
+
+Lemma zero_lit_ety F G t e : zero_lit t e = true -> ty_decl t = true -> ety F G e = Some t.
+Proof.
+  unfold zero_lit. intros H Hd.
+  assert (Ha : ty_ann t = true).
+  { unfold ty_decl in Hd. apply andb_true_iff in Hd as [Hp Hs]. unfold ty_ann. rewrite Hs.
+    destruct (ty_value_sty t) as (s & _ & _) || idtac.
+    - clear -Hp. induction t; simpl in *; auto; discriminate.
+    - rewrite andb_true_r. clear -Hp. induction t; simpl in *; auto; discriminate. }
+  destruct e; try discriminate.
+  - destruct es; [|discriminate]. destruct t; try discriminate. apply ty_eqb_true in H. subst t0.
+    rewrite ety_EArr. rewrite Ha. reflexivity.
+  - destruct pairs; [|discriminate]. destruct t; try discriminate. apply ty_eqb_true in H. subst t0.
+    rewrite ety_EMap. rewrite Ha. reflexivity.
+Qed.
+
+(* the defaulted empty literal stored into any:  print []  ,  typeof {}  *)
+Definition zero_any (t : ty) (e : expr) : bool :=
+  zero_lit t e && match t with TArr TAny | TMap TAny => true | _ => false end.
+
 (* an argument against a parameter type: the value has exactly the parameter's type, or the parameter is
    any and the value is wrapped (the wrapper records the value's own type), or the parameter is one of
    the two generic built-in parameter types *)
@@ -674,12 +702,12 @@ Section ArgAnn.
     match p with
     | TAny =>
         match a with
-        | EAny a' t' => ann a' && sty_is G a' t' && negb (is_any t') && ty_small t'
+        | EAny a' t' => (ann a' && sty_is G a' t' && negb (is_any t') && ty_small t') || zero_any t' a'
         | _ => ann a && sty_is G a TAny
         end
     | TGenArr => ann a && match spec_ty_of G a with Some s => TypesSpec.is_array_b s && ty_small (ty_of s) | None => false end
     | TGenMap => ann a && match spec_ty_of G a with Some s => TypesSpec.is_map_b s && ty_small (ty_of s) | None => false end
-    | _ => ann a && sty_is G a p && ty_small p
+    | _ => (ann a && sty_is G a p && ty_small p) || (ty_decl p && zero_lit p a)
     end.
   Fixpoint args_ann (ps : list ty) (args : list expr) {struct args} : bool :=
     match ps, args with
@@ -716,12 +744,12 @@ Fixpoint ann_ok (F : list funcdef) (G : tyenv) (A : expr) {struct A} : bool :=
     match p with
     | TAny =>
         match a with
-        | EAny a' t' => ann_ok F G a' && sty_is G a' t' && negb (is_any t') && ty_small t'
+        | EAny a' t' => (ann_ok F G a' && sty_is G a' t' && negb (is_any t') && ty_small t') || zero_any t' a'
         | _ => ann_ok F G a && sty_is G a TAny
         end
     | TGenArr => ann_ok F G a && match spec_ty_of G a with Some s => TypesSpec.is_array_b s && ty_small (ty_of s) | None => false end
     | TGenMap => ann_ok F G a && match spec_ty_of G a with Some s => TypesSpec.is_map_b s && ty_small (ty_of s) | None => false end
-    | _ => ann_ok F G a && sty_is G a p && ty_small p
+    | _ => (ann_ok F G a && sty_is G a p && ty_small p) || (ty_decl p && zero_lit p a)
     end in
   let argsf := fix go (ps : list ty) (args : list expr) {struct args} : bool :=
     match ps, args with
@@ -863,6 +891,12 @@ Qed.
 Definition arg_typed (F : list funcdef) (G : tyenv) (a : expr) : Prop :=
   ann_typed F G a /\ (forall a' t', a = EAny a' t' -> ann_typed F G a').
 
+Lemma ty_decl_ann t : ty_decl t = true -> ty_ann t = true.
+Proof.
+  unfold ty_decl, ty_ann. intros H. apply andb_true_iff in H as [Hp Hs]. rewrite Hs, andb_true_r.
+  clear -Hp. induction t; simpl in *; auto; discriminate.
+Qed.
+
 Lemma arg_conv F G p a :
   arg_typed F G a -> arg_ann (ann_ok F G) G p a = true ->
   exists ta, ety F G a = Some ta /\ arg_ok p ta = true.
@@ -875,13 +909,24 @@ Proof.
     destruct (sty_is_inv _ _ _ Hq2) as (e & k & s & _ & _ & ->).
     unfold arg_ok, ty_ann. rewrite ty_eqb_same, ty_value_ty_of, Hq3.
     destruct (ty_of s); try reflexivity; congruence. }
-  destruct p; try (apply PLAINARG; [exact Ha|discriminate|discriminate]).
+  assert (ZEROARG : forall q, ty_decl q && zero_lit q a = true ->
+             exists ta, ety F G a = Some ta /\ arg_ok q ta = true).
+  { intros q Hq. apply andb_true_iff in Hq as [Hd Hz]. exists q. split; [apply zero_lit_ety; assumption|].
+    unfold arg_ok. rewrite ty_eqb_same, (ty_decl_ann q Hd).
+    unfold zero_lit in Hz. destruct a; try discriminate; destruct q; try discriminate; reflexivity. }
+  destruct p;
+    try (apply orb_true_iff in Ha as [Ha|Ha]; [apply PLAINARG; [exact Ha|discriminate|discriminate]|apply ZEROARG; exact Ha]).
   - (* any *)
     destruct a; try (apply (PLAINARG TAny); [rewrite Ha; reflexivity|discriminate|discriminate]).
-    apply andb_true_iff in Ha as [Ha Ha4]. apply andb_true_iff in Ha as [Ha Ha3]. apply andb_true_iff in Ha as [Ha1 Ha2].
     exists TAny. split; [|reflexivity]. cbn [ety].
-    rewrite (ann_typed_by_sty F G a t (H2 a t eq_refl) Ha1 Ha2). simpl. rewrite ty_eqb_same, Ha3. simpl.
-    destruct (sty_is_inv _ _ _ Ha2) as (e & k & s & _ & _ & ->). unfold ty_ann. rewrite ty_value_ty_of, Ha4. reflexivity.
+    apply orb_true_iff in Ha as [Ha|Ha].
+    + apply andb_true_iff in Ha as [Ha Ha4]. apply andb_true_iff in Ha as [Ha Ha3]. apply andb_true_iff in Ha as [Ha1 Ha2].
+      rewrite (ann_typed_by_sty F G a t (H2 a t eq_refl) Ha1 Ha2). simpl. rewrite ty_eqb_same, Ha3. simpl.
+      destruct (sty_is_inv _ _ _ Ha2) as (e & k & s & _ & _ & ->). unfold ty_ann. rewrite ty_value_ty_of, Ha4. reflexivity.
+    + unfold zero_any in Ha. apply andb_true_iff in Ha as [Hz Hk].
+      assert (Hd : ty_decl t = true) by (destruct t as [| | | | |u|u| | | |]; try discriminate; destruct u; try discriminate; reflexivity).
+      rewrite (zero_lit_ety F G t a Hz Hd). simpl. rewrite ty_eqb_same, (ty_decl_ann t Hd).
+      destruct t; try discriminate; reflexivity.
   - (* generic array *)
     apply andb_true_iff in Ha as [Ha1 Ha2]. unfold spec_ty_of in Ha2.
     destruct (erase G a) as [e|] eqn:He; [|discriminate].
@@ -1214,6 +1259,23 @@ Proof.
 Qed.
 
 (* ... and the specification's assignability rule accepts that flow *)
+(* the retyped empty literal of a value slot is the source expression [] / {} , which the
+   specification converts to every closed array / map type (and stores into any) *)
+Lemma zero_spec_accepts G t e st : zero_lit t e = true -> sty_of t = Some st ->
+  exists e', erase G e = Some e' /\
+    (exists shown, TypesSpec.spec_check (TypesSyntax.CAssign st) e' = TypesSpec.SAccept st shown) /\
+    (exists shown, TypesSpec.spec_check (TypesSyntax.CAssign TypesSyntax.SAny) e' = TypesSpec.SAccept TypesSyntax.SAny shown).
+Proof.
+  unfold zero_lit. intros H Hst.
+  destruct e; try discriminate.
+  - destruct es; [|discriminate]. destruct t; try discriminate. exists (TypesSyntax.EArr []). split; [reflexivity|].
+    simpl in Hst. destruct (sty_of t) as [u|]; [|discriminate]. inversion Hst; subst st.
+    vm_compute. eauto.
+  - destruct pairs; [|discriminate]. destruct t; try discriminate. exists (TypesSyntax.EMap []). split; [reflexivity|].
+    simpl in Hst. destruct (sty_of t) as [u|]; [|discriminate]. inversion Hst; subst st.
+    vm_compute. eauto.
+Qed.
+
 Lemma sval_spec_accepts F G t e st :
   sval F G t e = true -> sty_of t = Some st -> TypesSyntax.closed st = true ->
   exists e', erase G e = Some e' /\
@@ -1230,19 +1292,33 @@ Proof.
     assert (TypesSpec.assignable_b k st st = true) as ->; [|eauto].
     unfold TypesSpec.assignable_b. destruct k; [rewrite (proj2 (sty_eqb_eq st st) eq_refl); reflexivity|].
     apply TypesSpecProofs.conv_b_refl. }
+  assert (PLAIN : forall a, ann_ok F G a && sty_is G a t && ty_small t = true ->
+            exists e', erase G a = Some e' /\
+              exists shown, TypesSpec.spec_check (TypesSyntax.CAssign st) e' = TypesSpec.SAccept st shown).
+  { intros a Ha. apply andb_true_iff in Ha as [Ha _]. apply andb_true_iff in Ha as [_ Ha].
+    destruct (EXACT _ Ha) as (e' & He & k & Htc). exists e'. split; [exact He|]. eapply ACC; eauto. }
+  assert (ZERO : ty_decl t && zero_lit t e = true ->
+            exists e', erase G e = Some e' /\
+              exists shown, TypesSpec.spec_check (TypesSyntax.CAssign st) e' = TypesSpec.SAccept st shown).
+  { intros Hz. apply andb_true_iff in Hz as [_ Hz].
+    destruct (zero_spec_accepts G t e st Hz Hst) as (e' & He & A & _). eauto. }
   unfold arg_ann in H. destruct t; try discriminate;
-    try (apply andb_true_iff in H as [H _]; apply andb_true_iff in H as [_ H];
-         destruct (EXACT _ H) as (e' & He & k & Htc); exists e'; split; [exact He|]; eapply ACC; eauto).
+    try (apply orb_true_iff in H as [H|H]; [apply PLAIN; exact H|apply ZERO; exact H]).
   (* the slot is any *)
   simpl in Hst. inversion Hst; subst st.
-  destruct e; try (apply andb_true_iff in H as [_ H];
+  destruct e as [| | | |a' t'| | | | | | | | | |]; try (apply andb_true_iff in H as [_ H];
          destruct (EXACT _ H) as (e' & He & k & Htc); exists e'; split; [exact He|]; eapply ACC; eauto).
-  apply andb_true_iff in H as [H _]. apply andb_true_iff in H as [H _]. apply andb_true_iff in H as [_ H].
-  destruct (sty_is_inv _ _ _ H) as (e' & k & s & He & Htc & Ht).
-  exists e'. cbn [erase]. split; [exact He|].
-  unfold TypesSpec.spec_check, TypesSpec.spec_assign. rewrite Htc.
-  assert (TypesSpec.assignable_b k TypesSyntax.SAny s = true) as ->; [|eauto].
-  unfold TypesSpec.assignable_b. destruct k; [apply orb_true_r|]. destruct s; reflexivity.
+  apply orb_true_iff in H as [H|H].
+  - apply andb_true_iff in H as [H _]. apply andb_true_iff in H as [H _]. apply andb_true_iff in H as [_ H].
+    destruct (sty_is_inv _ _ _ H) as (e' & k & s & He & Htc & Ht).
+    exists e'. cbn [erase]. split; [exact He|].
+    unfold TypesSpec.spec_check, TypesSpec.spec_assign. rewrite Htc.
+    assert (TypesSpec.assignable_b k TypesSyntax.SAny s = true) as ->; [|eauto].
+    unfold TypesSpec.assignable_b. destruct k; [apply orb_true_r|]. destruct s; reflexivity.
+  - unfold zero_any in H. apply andb_true_iff in H as [Hz Hk].
+    assert (exists u, sty_of t' = Some u) as (u & Hu).
+    { destruct t' as [| | | | |v|v| | | |]; try discriminate; destruct v; try discriminate; simpl; eauto. }
+    destruct (zero_spec_accepts G t' a' u Hz Hu) as (e' & He & _ & A). exists e'. cbn [erase]. split; [exact He|exact A].
 Qed.
 
 (* ---------- assignment targets: the chain of index / dot steps from a variable ---------- *)
@@ -1367,30 +1443,6 @@ Lemma sis_ety F G e t : sis F G e t = true -> ety F G e = Some t.
 Proof.
   unfold sis. intros H. apply andb_true_iff in H as [H1 H2].
   eapply ann_typed_by_sty; eauto. apply spec_to_static.
-Qed.
-
-(* the value node the parser fabricates for a typed declaration  x:[]num  /  x:{}num  and for
-   x := []  (declared with the defaulted type): an empty literal carrying the declared type *)
-Definition zero_lit (t : ty) (e : expr) : bool :=
-  match e, t with
-  | EArr t' [], TArr _ => ty_eqb t t'
-  | EMap t' [], TMap _ => ty_eqb t t'
-  | _, _ => false
-  end.
-
-Lemma zero_lit_ety F G t e : zero_lit t e = true -> ty_decl t = true -> ety F G e = Some t.
-Proof.
-  unfold zero_lit. intros H Hd.
-  assert (Ha : ty_ann t = true).
-  { unfold ty_decl in Hd. apply andb_true_iff in Hd as [Hp Hs]. unfold ty_ann. rewrite Hs.
-    destruct (ty_value_sty t) as (s & _ & _) || idtac.
-    - clear -Hp. induction t; simpl in *; auto; discriminate.
-    - rewrite andb_true_r. clear -Hp. induction t; simpl in *; auto; discriminate. }
-  destruct e; try discriminate.
-  - destruct es; [|discriminate]. destruct t; try discriminate. apply ty_eqb_true in H. subst t0.
-    rewrite ety_EArr. rewrite Ha. reflexivity.
-  - destruct pairs; [|discriminate]. destruct t; try discriminate. apply ty_eqb_true in H. subst t0.
-    rewrite ety_EMap. rewrite Ha. reflexivity.
 Qed.
 
 (* a value slot: [sval], or the empty literal retyped to the slot's type ( x = []  with x:[]num ) *)
@@ -1822,21 +1874,6 @@ Proof.
   destruct (erase G a) as [e'|]; [|discriminate]. destruct (TypesSpec.spec_tc e') as [[k s]|] eqn:Htc; [|discriminate].
   simpl in H. apply andb_true_iff in H as [H _]. exists e', s. split; [reflexivity|].
   unfold TypesSpec.spec_check. rewrite Htc, H. reflexivity.
-Qed.
-
-(* the retyped empty literal of a value slot is the source expression [] / {} , which the
-   specification converts to every closed array / map type *)
-Lemma zero_spec_accepts G t e st : zero_lit t e = true -> sty_of t = Some st ->
-  exists e', erase G e = Some e' /\ exists shown, TypesSpec.spec_check (TypesSyntax.CAssign st) e' = TypesSpec.SAccept st shown.
-Proof.
-  unfold zero_lit. intros H Hst.
-  destruct e; try discriminate.
-  - destruct es; [|discriminate]. destruct t; try discriminate. exists (TypesSyntax.EArr []). split; [reflexivity|].
-    simpl in Hst. destruct (sty_of t) as [u|]; [|discriminate]. inversion Hst; subst st.
-    vm_compute. eauto.
-  - destruct pairs; [|discriminate]. destruct t; try discriminate. exists (TypesSyntax.EMap []). split; [reflexivity|].
-    simpl in Hst. destruct (sty_of t) as [u|]; [|discriminate]. inversion Hst; subst st.
-    vm_compute. eauto.
 Qed.
 
 (* an assignment to a target chain is judged like an assignment to a variable of the chain's type *)
